@@ -329,43 +329,81 @@ def check_stencils(rep, prog, m):
     gh = prog.func(GOD, 'get_hess')
 
     def step_loop(fn):
-        """the loop that turns the fractional step into absolute steps: roles of the names it uses, whatever they are called
-        (A = array of steps, S = fractional step, O = one-sided flags), or None"""
+        """the loop that turns the fractional step into absolute steps, decided on the three worlds of one parameter (zero / non-zero
+        with a relative step below 1e-6 / regular): which array gets which step and which flag is raised, however the tests are nested.
+        -> roles of the names (A = array of steps, S = fractional step, O = one-sided flags) or None"""
         sing = single_assignments(fn)
         for n in fn.body:
-            if not (isinstance(n, ast.For) and ast.unparse(n.iter) == 'enumerate(p0)' and isinstance(n.target, ast.Tuple) and len(n.target.elts) == 2 and len(n.body) == 1):
+            if not (isinstance(n, ast.For) and ast.unparse(n.iter) == 'enumerate(p0)' and isinstance(n.target, ast.Tuple) and len(n.target.elts) == 2):
                 continue
             iv, pv = [ast.unparse(x) for x in n.target.elts]
-            top = n.body[0]
-            if not (isinstance(top, ast.If) and ast.unparse(top.test) == '%s != 0' % pv and len(top.body) == 1 and len(top.orelse) == 1 and isinstance(top.body[0], ast.If)):
+            # the tiny-step test: <pv * S> < 1e-06 somewhere in the loop
+            S = None
+            for t in ast.walk(n):
+                if isinstance(t, ast.Compare) and len(t.ops) == 1 and isinstance(t.ops[0], ast.Lt) and isinstance(t.left, ast.BinOp) and isinstance(t.left.op, ast.Mult) \
+                        and ast.unparse(t.comparators[0]) == '1e-06':
+                    ops = [ast.unparse(t.left.left), ast.unparse(t.left.right)]
+                    if pv in ops:
+                        S = ops[1 - ops.index(pv)]
+            if S is None:
                 continue
-            inner = top.body[0]
-            t = inner.test
-            if not (isinstance(t, ast.Compare) and len(t.ops) == 1 and isinstance(t.ops[0], ast.Lt) and isinstance(t.left, ast.BinOp) and isinstance(t.left.op, ast.Mult)
-                    and ast.unparse(t.comparators[0]) == '1e-06'):
+
+            def tv(e, world):
+                if isinstance(e, ast.BoolOp):
+                    vs = [tv(v, world) for v in e.values]
+                    if None in vs:
+                        return None
+                    return all(vs) if isinstance(e.op, ast.And) else any(vs)
+                if isinstance(e, ast.UnaryOp) and isinstance(e.op, ast.Not):
+                    v = tv(e.operand, world)
+                    return None if v is None else not v
+                t_ = ast.unparse(e).replace(' ', '')
+                if t_ in ('%s!=0' % pv, '0!=%s' % pv, pv):
+                    return world != 'zero'
+                if t_ in ('%s==0' % pv, '0==%s' % pv):
+                    return world == 'zero'
+                if t_ in ('%s*%s<1e-06' % (pv, S), '%s*%s<1e-06' % (S, pv)):
+                    return world != 'regular'       # for a zero parameter the product is 0 < 1e-6 as well
+                return None
+
+            def run(stmts, world, out):
+                for st in stmts:
+                    if isinstance(st, ast.If):
+                        v = tv(st.test, world)
+                        if v is None:
+                            return False
+                        if not run(st.body if v else st.orelse, world, out):
+                            return False
+                    elif isinstance(st, ast.Assign) and len(st.targets) == 1 and isinstance(st.targets[0], ast.Subscript) and ast.unparse(st.targets[0].slice) == iv:
+                        out[ast.unparse(st.targets[0].value)] = ast.unparse(st.value)
+                    elif isinstance(st, (ast.Pass,)) or (isinstance(st, ast.Expr) and isinstance(st.value, ast.Constant)):
+                        continue
+                    else:
+                        return False
+                return True
+            res = {}
+            okrun = True
+            for world in ('zero', 'tiny', 'regular'):
+                res[world] = {}
+                okrun = okrun and run(n.body, world, res[world])
+            if not okrun:
                 continue
-            ops = [ast.unparse(t.left.left), ast.unparse(t.left.right)]
-            if pv not in ops:
+            # roles: the array that receives a step in every world, the flag list that receives True
+            arrays = set(res['zero']) & set(res['tiny']) & set(res['regular'])
+            flags_ = {k for w in res.values() for k, v in w.items() if v == 'True'}
+            if len(arrays - flags_) != 1 or len(flags_) != 1:
                 continue
-            S = ops[1 - ops.index(pv)]
-            z = top.orelse[0]
-            if not (isinstance(z, ast.Assign) and isinstance(z.targets[0], ast.Subscript) and ast.unparse(z.targets[0].slice) == iv and ast.unparse(z.value) == S):
-                continue
-            A = ast.unparse(z.targets[0].value)
-            tiny = sorted(ast.unparse(x) for x in inner.body)
-            flags = [x for x in inner.body if isinstance(x, ast.Assign) and ast.unparse(x.value) == 'True' and isinstance(x.targets[0], ast.Subscript) and ast.unparse(x.targets[0].slice) == iv]
-            if len(flags) != 1 or len(inner.body) != 2:
-                continue
-            O = ast.unparse(flags[0].targets[0].value)
-            if tiny != sorted(['%s[%s] = %s' % (A, iv, S), '%s[%s] = True' % (O, iv)]):
-                continue
-            rel_ = inner.orelse
-            if not (len(rel_) == 1 and ast.unparse(rel_[0]) in ('%s[%s] = %s * %s' % (A, iv, S, pv), '%s[%s] = %s * %s' % (A, iv, pv, S))):
-                continue
+            A, O = list(arrays - flags_)[0], list(flags_)[0]
+            good = res['zero'].get(A) == S and O not in res['zero'] and \
+                res['tiny'].get(A) == S and res['tiny'].get(O) == 'True' and \
+                res['regular'].get(A) in ('%s * %s' % (S, pv), '%s * %s' % (pv, S)) and O not in res['regular']
+            if not good:
+                return {'A': A, 'S': S, 'O': O, 'node': n, 'ok': False}
             # S is the fractional step handed to the function: its eps parameter, or a copy of it taken before A took over the name
             s_ok = (S == 'eps' and A != 'eps') or (S in sing and ast.unparse(sing[S]) == 'eps')
-            inits = {ast.unparse(x.targets[0]): ast.unparse(x.value) for x in fn.body[:fn.body.index(n)] if isinstance(x, ast.Assign) and len(x.targets) == 1}
-            i_ok = inits.get(A) == 'numpy.empty([len(p0)])' and inits.get(O) == '[False] * len(p0)'
+            inits = {ast.unparse(x.targets[0]): ast.unparse(inline(x.value, {k_: v_ for k_, v_ in sing.items() if ast.unparse(v_) == 'len(p0)'})) for x in fn.body[:fn.body.index(n)]
+                     if isinstance(x, ast.Assign) and len(x.targets) == 1}
+            i_ok = inits.get(A) in ('numpy.empty([len(p0)])', 'numpy.empty(len(p0))', 'numpy.zeros(len(p0))', 'numpy.zeros([len(p0)])') and inits.get(O) == '[False] * len(p0)'
             return {'A': A, 'S': S, 'O': O, 'node': n, 'ok': s_ok and i_ok}
         return None
     r1, r2 = step_loop(gh), step_loop(gg)
